@@ -51,6 +51,7 @@ type Grammar struct {
 	rules  map[string]*rule
 	order  []*rule
 	Source string
+	depths map[*expr]int // minimal derivation depth per expression (sentence generation)
 }
 
 type metaParser struct {
